@@ -7,6 +7,7 @@ UNITS = {
     'CONN': dict(template='conn.rs', rlimit=30),
     'FRAMEDEC': dict(template='framedec.rs', rlimit=30),
     'SENDSPLIT': dict(template='sendsplit.rs', rlimit=30),
+    'LINK': dict(template='link.rs', rlimit=30),
 }
 
 COMMON_TRUSTED = [
@@ -36,11 +37,12 @@ ENGINE = 'that the tokio engine tasks (select! loops, mpsc channels) call these 
 
 PROPS = {
     'C02': dict(
-        units=['SESSION', 'SENDSPLIT'], kani=[], level='proof', title='Settlement',
+        units=['SESSION', 'SENDSPLIT', 'LINK'], kani=[], level='proof', title='Settlement',
         assumptions=[ASYNC, ENGINE,
             'session::consecutive_chunk_indices enters with an assumed contract (iterator adapters are outside the Verus subset)',
             'in unit SESSION a link is a ghost call log whose echo answer is the contract of LinkRelay::on_incoming_disposition (sender && !settled && rcv-settle-mode second)',
-            'DeliveryFut::poll (Pin/poll) and interleaving of dispositions with further sends are not decided']),
+            'DeliveryFut::poll (Pin/poll) and interleaving of dispositions with further sends are not decided',
+            'that UnsettledMessage::settle_with_state is actually invoked on the entry removed by LinkRelay::on_incoming_disposition is visible in the extracted text but is not an obligation: a by-value call leaves no ghost trace; what IS proved: the entry removed is the one under the disposition\'s tag, and settle_with_state resolves its own channel with exactly the state given']),
     'C06': dict(
         units=['FRAMEENC', 'FRAMEDEC'], kani=[], level='proof', title='Frames on the wire',
         lemmas={'FRAMEENC': ['lemma_expected_properties', 'lemma_cut_points', 'lemma_mids_payload', 'lemma_mids_sizes', 'lemma_flatten_append', 'lemma_payloads_append']},
@@ -51,7 +53,7 @@ PROPS = {
             'non-transfer performatives larger than the frame are cut into pseudo-frames by start_send: see known finding / DESIGN D9 (not decided by a contract here)',
             'decoding under arbitrary read fragmentation is tokio_util LengthDelimitedCodec + FramedRead (third party), not verified']),
     'C01': dict(
-        units=['FRAMEENC', 'SESSION', 'SENDSPLIT'],
+        units=['FRAMEENC', 'SESSION', 'SENDSPLIT', 'LINK'],
         lemmas={'SENDSPLIT': ['lemma_link_expected', 'lemma_link_mids'], 'FRAMEENC': ['lemma_expected_properties', 'lemma_mids_payload']}, kani=[], level='proof', title='End-to-end delivery (sequential stages only)',
         assumptions=[ASYNC, ENGINE,
             'only the sequential stages are under contract: session hold-back/stamping (SESSION) and frame splitting (FRAMEENC); link-level split, reassembly and the codec round trip are separate units where built',
@@ -91,12 +93,12 @@ PROPS = {
             'slab::Slab is modelled as a partial map whose vacant key is unoccupied (trusted stand-in)',
             'concurrent attaches are serialised by the session engine (not verified)']),
     'C13': dict(
-        units=['SESSION'], kani=[], level='proof', title='Session and link lifecycles',
+        units=['SESSION', 'LINK'], kani=[], level='proof', title='Session and link lifecycles',
         assumptions=[ASYNC, ENGINE,
             'answered-no-later-than / returns-only-after clauses of the property are liveness statements and are not decided',
             'Drop impls racing with the engine are not decided']),
     'C15': dict(
-        units=['SESSION', 'CONN', 'FRAMEDEC'], kani=[], level='proof', title='Misbehaving peer',
+        units=['SESSION', 'CONN', 'FRAMEDEC', 'LINK'], kani=[], level='proof', title='Misbehaving peer',
         assumptions=[ASYNC, ENGINE,
             'never-blocks-forever and isolation between connections are not decided',
             'handlers of peer input carry no precondition on the peer-controlled arguments']),
